@@ -101,7 +101,14 @@ def _run_structural(ctx):
     # R6 a released core corresponds to a dead process group (composition with the C13 kill-sequence rule)
     r6 = ctx.rule("R6", "the kill sequence that precedes the release ends every process of the task (group SIGKILL, reaped)", min_instances=3)
     from .shared import import_rules
-    import_rules(ctx, r6, "C13", only={"R6"})
+    n6 = import_rules(ctx, r6, "C13", only={"R6"})
+    if not n6:
+        # the kill sequence lives where the structural rule of C13 does not look (a helper in another module): the evaluated task coroutine decides
+        from .evalhelpers import cached_witness, report_witness, task_coroutine_witness
+        r6.min_instances = 1
+        report_witness(r6, "src/gwf/backends/local.py::Scheduler.try_handle_task::kill-sequence", "src/gwf/backends/local.py:1", cached_witness(ctx, "task", task_coroutine_witness),
+                       "on every cancellation / time-limit path with a process: SIGKILL to the process group, the process reaped, then the core released",
+                       select=lambda d: "SIGKILL" in d or "reaped" in d or "before the process group has been killed" in d)
 
     # R5 semaphore size = configured worker count
     r5 = ctx.rule("R5", "the semaphore is sized by the --num-workers value", min_instances=4)
